@@ -29,7 +29,9 @@ UNIVERSE = {
     'pkga': {}, 'pkga.util': {'funcs': ['f', 'g'], 'classes': {'C': {'methods': ['meth'], 'nested': ['Inner']}}},
     'pkgb': {}, 'pkgb.util': {'funcs': ['f'], 'classes': {'C': {'methods': ['meth', 'meth2'], 'nested': []}}},
     'pkgc': {}, 'pkgc.util': {'funcs': ['f'], 'classes': {}},
-    'top': {'funcs': ['g', 'h'], 'classes': {}},
+    'top': {'funcs': ['g', 'h'], 'classes': {}, 'wraps': {'tg': 'g'}},      # tg = functools.wraps(g)(...): another object
+    'pkga.v1': {}, 'pkga.v1.models': {'funcs': ['build'], 'classes': {}},
+    'pkga.v2': {}, 'pkga.v2.models': {'funcs': ['build'], 'classes': {}},
     'pkga.deep': {}, 'pkga.deep.mod': {'funcs': ['f'], 'classes': {}},
     'zeta': {'funcs': ['zf'], 'classes': {}}, 'alpha': {}, 'alpha.tools': {'funcs': ['af'], 'classes': {}},
     'beta': {}, 'beta.tools': {'funcs': ['bf'], 'classes': {}},
@@ -54,6 +56,15 @@ class World:
       spec = UNIVERSE[name]
       for f in spec.get('funcs', []):
         self._func(m, name, f, name + '.' + f)
+      for wname, target in spec.get('wraps', {}).items():
+        import functools
+        inner = getattr(m, target)
+
+        def wrapper(*args, _inner=inner, **kw):
+          return ('wrapped', _inner(*args, **kw))
+        w = functools.wraps(inner)(wrapper)          # __wrapped__ = inner, same __name__ / __module__
+        setattr(m, wname, w)
+        self._reg(name + '.' + wname, w)
       for cn, cs in spec.get('classes', {}).items():
         cls = type(cn, (object,), {'__init__': self._init(), '__module__': name, '__qualname__': cn})
         setattr(m, cn, cls)
@@ -97,7 +108,7 @@ class World:
     def mod(name):
       spec = UNIVERSE[name]
       attrs = []
-      for f in spec.get('funcs', []):
+      for f in spec.get('funcs', []) + list(spec.get('wraps', {})):
         attrs.append('(%s, PFunc %d)' % (C.cstr(f), self.ids[name + '.' + f]))
       for cn, cs in spec.get('classes', {}).items():
         ca = ['(%s, PFunc %d)' % (C.cstr(mm), self.ids[name + '.' + cn + '.' + mm]) for mm in cs['methods']]
@@ -119,8 +130,11 @@ IMPORTS = [
     ['import', 'pkga.deep.mod', False, None], ['import', 'pkga.deep.mod', True, None], ['import', 'pkga.deep.mod', False, 'dm'],
     ['import', 'pkga', False, None], ['import', 'nosuch.mod', False, None], ['import', 'top', False, 'gin'],
     ['import', 'pkgc.util', True, None], ['import', 'top', False, 'util2'], ['import', 'pkgc.util', False, 'util3'],
+    ['import', 'pkga.v1.models', False, None], ['import', 'pkga.v2.models', True, None], ['import', 'pkga.v2.models', False, 'm2'],
 ]
-LEAVES = {'pkga.util': ['f', 'g', 'C', 'C.meth', 'C.Inner', 'nope'], 'pkgb.util': ['f', 'C', 'C.meth', 'C.meth2'], 'top': ['g', 'h'],
+LEAVES = {'pkga.util': ['f', 'g', 'C', 'C.meth', 'C.Inner', 'nope'], 'pkgb.util': ['f', 'C', 'C.meth', 'C.meth2'], 'top': ['g', 'h', 'tg', 'g', 'tg'],
+          # '^...': an absolute dotted name through the package root, reachable only through a plain 'import a.b.c'
+          'pkga.v1.models': ['build', '^pkga.v2.models.build', '^pkga.v1.models.build'], 'pkga.v2.models': ['build'],
           'pkgc.util': ['f'],
           'pkga.deep.mod': ['f'], 'pkga': ['util.f', 'util.C', 'deep.mod.f']}
 
@@ -136,6 +150,10 @@ def bound(imp):
 def selector_for(imp, leaf):
   """a dotted name reaching module.leaf through the import's bound name"""
   _, module, is_from, alias = imp
+  if leaf.startswith('^'):
+    if not (alias or is_from):
+      return leaf[1:]
+    leaf = leaf[1:].rpartition('.')[2]
   if alias or is_from:
     return bound(imp) + '.' + leaf
   return module + '.' + leaf
@@ -395,7 +413,10 @@ class DynEngine(Engine):
         table, dyn, valid = {}, False, True
         taken = [p.partition('@')[2] for p in pre if '@' in p]
         seen_import = False
+        first_bad = None          # the error class the FIRST invalid statement must raise, when that is determined
         for st in stmts:
+          if not valid:
+            break
           if st[0] == 'import':
             if st[1] == '__gin__.dynamic_registration':
               if seen_import or st[3]:
@@ -412,15 +433,26 @@ class DynEngine(Engine):
             if not dyn:
               valid = False      # static lookups depend on what is registered: not judged here
               break
-            for n in [st[2]] + ([st[4][1]] if st[0] == 'bind' and not isinstance(st[4], int) else []):
+            # the value is parsed before the target
+            for n in ([st[4][1]] if st[0] == 'bind' and not isinstance(st[4], int) else []) + [st[2]]:
               r = findings._resolve(table, n)
-              if not r or r[0] not in w.objs:
-                valid = False
-              elif any(r[0] == t or r[0].startswith(t + '.') for t in taken):
+              if not r:
+                valid, first_bad = False, 'NameError'
+                break
+              if r[0] not in w.objs:
+                valid, first_bad = False, ('AttributeError' if r[0].rpartition('.')[0] in w.objs or r[0].rpartition('.')[0] in UNIVERSE else None)
+                break
+              if any(r[0] == t or r[0].startswith(t + '.') for t in taken):
                 valid = False    # a selector already taken by another object is a legitimate ValueError
+                break
         if valid and isinstance(obs[ci], T):
           fails.append(('valid-statement-rejected', 'call %d raised %s although every name is provided by the text\'s own imports: %r' %
                         (ci, obs[ci].args[0], render(stmts))))
+        elif first_bad and isinstance(obs[ci], T) and obs[ci].args[0] == 'ValueError':
+          # every statement before the first invalid one is valid, and that one must raise first_bad: a ValueError
+          # therefore comes from a VALID statement
+          fails.append(('valid-statement-rejected', 'call %d raised ValueError before its first invalid statement (which raises %s): %r' %
+                        (ci, first_bad, render(stmts))))
       # (5) a configured method receives its bindings when called on an instance built through the registry
       if all_ok:
         for (sc, q), d in list(cfg._CONFIG.items()):  # pylint: disable=protected-access
